@@ -268,16 +268,35 @@ def run(ctx):
     exp_int = sum((len(a) ** 2 * 5 + len(a)) * npaths + len(a) * 2 * 4 for a in (bi, bu))
     fin = [v for v in dv if not math.isinf(v)]
     exp_dbl = (len(dv) ** 2 * 4 + len(dv)) * 5 + (len(fin) ** 2 * 4 + len(fin)) * 2
-    ctx.coverage_extra["expected_cases"] = exp_int + exp_dbl
-    if ctx.part.evaluations != exp_int + exp_dbl:
-        raise runner.HarnessError(f"enumerated {ctx.part.evaluations} cases, cardinality is {exp_int + exp_dbl}")
+    n_ph = _pairhist.run(ctx, __name__)
+    ctx.rule += (f" Pair histories: each of {len(PH_TEXTS)} literal operations (integer boundary cases with known results, divisions by zero of both signs, signed zeros; both runners) alone and "
+                 "after every operation including itself in one process, started from the pristine process state: the exact result and the result alone.")
+    ctx.coverage_extra["expected_cases"] = exp_int + exp_dbl + n_ph
+    if ctx.part.evaluations != exp_int + exp_dbl + n_ph:
+        raise runner.HarnessError(f"enumerated {ctx.part.evaluations} cases, cardinality is {exp_int + exp_dbl + n_ph}")
     for name, s in ctx.part.spaces.items():
         if name.startswith("double"):
             s["cardinality"] = s["enumerated"] = len(dv) ** 2 if "literal" not in name else len(fin) ** 2
 
 
+# ---- pair histories (mc/pairhist.py): an operation alone and after every other one in the same process ----------
+PH_EXPECTED = {"7 % -2": ("V", "int", 1), "-7 % 2": ("V", "int", -1), "7 / -2": ("V", "int", -3), "-7 / 2": ("V", "int", -3), "7 % 2": ("V", "int", 1), "-7 % -2": ("V", "int", -1),
+               "9223372036854775807 + 1": ("E",), "-9223372036854775807 - 1": ("V", "int", -9223372036854775808), "-9223372036854775807 - 2": ("E",), "4611686018427387904 * 2": ("E",),
+               "-4611686018427387904 * 2": ("V", "int", -9223372036854775808), "1u - 2u": ("E",), "5u / 2u": ("V", "uint", 2), "5u % 2u": ("V", "uint", 1), "18446744073709551615u + 1u": ("E",),
+               "1 / 0": ("E",), "1 % 0": ("E",), "1u / 0u": ("E",), "2 * 3": ("V", "int", 6), "3 - 5": ("V", "int", -2), "1 + 2": ("V", "int", 3), "1u + 2u": ("V", "uint", 3),
+               "(-9223372036854775807 - 1) / -1": ("E",), "(-9223372036854775807 - 1) % -1": ("V", "int", 0), "-(-9223372036854775807 - 1)": ("E",), "9223372036854775807 % 9223372036854775806": ("V", "int", 1)}
+PH_TEXTS = list(PH_EXPECTED) + ["1.5 / 0.0", "1.5 / -0.0", "-1.5 / 0.0", "-1.5 / -0.0", "0.0 / 0.0", "0.0 / -0.0", "1.0 / 3.0", "1e308 * 10.0", "-1e308 * 10.0", "2.0 * 3.0", "3.0 - 5.0", "0.1 + 0.2",
+                                "5e-324 / 2.0", "-0.0 + 0.0", "0.0 + -0.0", "-0.0 * 1.0", "1.0 / (-0.0 + 0.0)", "1.0 / (0.0 * -1.0)"]
+from .. import pairhist as _pairhist  # noqa: E402
+
+_pairhist.install(globals(), PH_TEXTS, PH_EXPECTED)
+
+
 def replay(w):
     wit = w["witness"]
+    if wit.get("space") == "pairhist":
+        from .. import pairhist
+        return pairhist.replay(w)
     part = runner.Part()
     kind, op, path = wit["domain"], wit["op"], wit["path"]
     print("replaying", wit)
